@@ -388,6 +388,29 @@ theorem wrap_colour_own_ascii (env : Env) (hcw : ∀ c, env.cw c ≤ c.utf8Size)
     (fun p _ _ => C05.shortcutContracts_own env o hsp pen0 halg _ (fun hu => by rw [hsep] at hu; cases hu))
     ls h
 
+/-- **`wrap` itself, both separators, with the model's own `smawk`**: what is left of the external
+    contracts is the `unicode_linebreak` clause (LB7 + char boundaries) for the paragraphs shorter
+    than the width, on the coloured and on the visible text -/
+-- @audit TW.C13.wrap_colour_own
+theorem wrap_colour_own (env : Env) (hcw : ∀ c, env.cw c ≤ c.utf8Size)
+    (o : Opts) (hsp : Builtin o.splitter) (pen0 : Penalties)
+    (halg : o.alg = .firstFit ∨ (o.alg = .optimalFit pen0 ∧ 0 < pen0.nline))
+    (hii : ∀ c ∈ o.initialIndent, c ≠ ESC) (hsi : ∀ c ∈ o.subsequentIndent, c ≠ ESC)
+    (paras : List CPara) (hne : paras ≠ [])
+    (hv : ∀ p ∈ paras, ValidB p.1 p.2 ∧ Attached none p.1 p.2 ∧ LF ∉ colOf p.1 p.2 ∧ LF ∉ visOf p.1 ∧
+      (env.opps (visOf p.1)).Pairwise (· < ·) ∧ HyphenOk env o p.1 p.2)
+    (hu : ∀ t : Text, o.sep = .unicode →
+      OppsNoSpace (stripAnsi t) (env.opps (stripAnsi t)) ∧
+      ∀ o' ∈ env.opps (stripAnsi t), o' < blen (stripAnsi t) → ∃ l r, stripAnsi t = l ++ r ∧ blen l = o')
+    (ls : List Text)
+    (h : wrap env (ownMinima (α := Int) pen0) o (joinWith o.lineEnding.str (paras.map fun p => colOf p.1 p.2)) = some ls) :
+    wrap env (ownMinima (α := Int) pen0) o (joinWith o.lineEnding.str (paras.map fun p => visOf p.1)) =
+      some (ls.map stripAnsi) :=
+  wrap_colour env hcw _ (fun frs lws => ownMinima_rowsShape pen0 frs lws) o hsp hii hsi paras hne hv
+    (fun p _ _ => C05.shortcutContracts_own env o hsp pen0 halg _ (hu _))
+    (fun p _ _ => C05.shortcutContracts_own env o hsp pen0 halg _ (hu _))
+    ls h
+
 /-! the hypotheses are satisfiable: a coloured sentence (a test, labelled as such) -/
 example :
     let bs : List Block := [("\x1b[1;31m".toList, 'a'), ([], 'b'), ("\x1b[0m".toList, ' '), ([], 'c')]
